@@ -664,9 +664,19 @@ static void mismatch_cause(const struct model *m, const struct desig *d_doc, con
         snprintf(out, n, "no-identity");
         return;
     }
-    for (int h = 0; h < 2; h++) {
+    /* An accepted socket whose server defaulted its paths under another XCM_TLS_CERT than the present one: the
+       explanations through that directory (as it is now, then as it was) are tried first, so that the same root
+       cause is named the same way whatever else the history did to the directory designated now. */
+    int differ = 0;
+    if (d_h1)
+        for (int i = 0; i < NIT; i++)
+            if (d_h1->it[i].form != d_doc->it[i].form || d_h1->it[i].dir != d_doc->it[i].dir ||
+                d_h1->it[i].val != d_doc->it[i].val)
+                differ = 1;
+    for (int pass = 0; pass < 2; pass++) {
+        int h = differ ? !pass : pass;          /* h == 1: through the server-creation directory */
         const struct desig *d = h == 0 ? d_doc : d_h1;
-        if (!d)
+        if (!d || (h == 1 && !differ))
             continue;
         for (int t = now; t >= 0; t--) {
             if (h == 0 && t == now)
